@@ -169,7 +169,8 @@ def verify_structure(chk):
             bad('the stripped ETag is not split')
             continue
         sp = evs[i + 1]
-        if not ex.veq(sv(sp.args[0]), Tree({}, evs[i].out, None)) and getattr(sv(sp.args[0]), 'origin', None) != evs[i].out:
+        a_sp = smodels.deref_all(ex, st, sv(sp.args[0]))
+        if not ex.veq(a_sp, Tree({}, evs[i].out, None)) and getattr(a_sp, 'origin', None) != evs[i].out and not (isinstance(a_sp, Sc) and str(a_sp.t) == evs[i].out):
             bad('split_once is not applied to the stripped ETag')
             continue
         D.require(st, sv(sp.args[1]).t == ord(':'), 'the separator is a colon')
